@@ -6,7 +6,7 @@ DEPS = {"C20": ["AttrThms.vo"], "C09": ["AttrThms.vo"], "C10": ["AttrThms.vo", "
 
 def extra(ck):
     if "C06" == "C06":
-        bad, worst = O.sinusoid_calibration(ck.rng, 8 if ck.tier == "quick" else 80)
+        bad, worst = O.sinusoid_calibration(ck.rng, 24 if ck.tier == "quick" else 300)
         for tag, what, inp in bad:
             ck.violation(what, inp, tag=tag)
         ck.cov["sinusoid_calibration_worst_rel_error"] = worst
